@@ -503,8 +503,25 @@ func (h *hist) byUnique(t *tinfo, g *gen, op Op) {
 		a := args[1]
 		n := reflect.New(a.Type()).Elem()
 		switch {
-		case a.CanInt():
-			n.SetInt(1<<30 + 11)
+		case a.CanInt() || a.CanUint():
+			// a value of the column's own range that no live row carries
+			okv := false
+			for cand := int64(1); cand < 400 && !okv; cand++ {
+				setInt(n, 32000-cand)
+				if a.Kind() == reflect.Uint8 || a.Kind() == reflect.Int8 {
+					setInt(n, 127-cand%120)
+				}
+				okv = true
+				for _, r := range t.rows {
+					if fv := r.FieldByName(u[0]); fv.Type() == n.Type() && equalish(fv, n) {
+						okv = false
+					}
+				}
+			}
+			if !okv {
+				h.out.Probe("skipped:no free key value")
+				return
+			}
 		case a.Kind() == reflect.String:
 			n.SetString("no such value \x01")
 		default:
